@@ -267,25 +267,44 @@ func (c *Ctx) checkRetentionSemantics(r *Report, ro *Roles, rule string) bool {
 					e, ok := byName[filepath.Base(p)]
 					return e, ok
 				}
+				dirPos := 0
 				ip.OnOS = func(ip *Interp, name string, args []AV) (AV, bool) {
 					switch name {
 					case "os.ReadDir":
 						return TupleV{dirEntries(avStr(args[0])), NilV{}}, true
 					case "os.Open":
 						if filepath.Clean(avStr(args[0])) == "/logs" {
+							dirPos = 0
 							return TupleV{&Sym{Name: "dirhandle"}, NilV{}}, true
 						}
-					case "(*os.File).ReadDir":
+					case "(*os.File).ReadDir", "(*os.File).Readdirnames":
+						// the handle remembers how far it has read: n ≤ 0 returns the rest, n > 0 at most n entries and
+						// io.EOF once nothing is left
 						if s, ok := args[0].(*Sym); ok && s.Name == "dirhandle" {
-							return TupleV{dirEntries("/logs"), NilV{}}, true
-						}
-					case "(*os.File).Readdirnames":
-						if s, ok := args[0].(*Sym); ok && s.Name == "dirhandle" {
-							var ns []string
-							for _, e := range list {
-								ns = append(ns, e.name)
+							n := int(avInt(args[1]))
+							rest := list[min(dirPos, len(list)):]
+							if n > 0 && len(rest) == 0 {
+								return TupleV{NilV{}, ip.errValKind("*errors.errorString", "EOF")}, true
 							}
-							return TupleV{strSlice(ip, ns), NilV{}}, true
+							if n > 0 && len(rest) > n {
+								rest = rest[:n]
+							}
+							dirPos += len(rest)
+							if name == "(*os.File).Readdirnames" {
+								var ns []string
+								for _, e := range rest {
+									ns = append(ns, e.name)
+								}
+								return TupleV{strSlice(ip, ns), NilV{}}, true
+							}
+							var es []AV
+							for _, e := range rest {
+								es = append(es, &IfaceV{T: types.Universe.Lookup("error").Type(), V: &Sym{Name: "dirent:" + e.name}})
+							}
+							if len(es) == 0 {
+								return TupleV{NilV{}, NilV{}}, true
+							}
+							return TupleV{ip.mkSlice(es), NilV{}}, true
 						}
 					case "(*os.File).Close":
 						if s, ok := args[0].(*Sym); ok && s.Name == "dirhandle" {
